@@ -9,6 +9,7 @@
     [spec_check] of Corr.v on the sampled cases and by the implementation-level search. *)
 From Coq Require Import Reals ZArith Bool.
 From RlibV Require Import C10.Model C10.RInst C10.ProofsLine C10.ProofsCL C10.ProofsMisc C10.ProofsCC.
+From RlibV Require C10.Corr C10.ProofsRatio.
 Open Scope R_scope.
 
 (** Line::new stores a unit normal, describes the same line, keeps the orientation *)
@@ -69,8 +70,9 @@ Proof. exact position_spec. Qed.
 (** circle-circle, stated for [cr b <= cr a]; the other order is [c10_cc_swap].
     d = distance of the centres.  Away from the +-eps bands the constructor follows the exact case
     analysis of d against r1 +- r2; [None] really means no common point; in the crossing case both
-    reported points lie on both circles exactly and are distinct (code as repaired in commit
-    bc281aa; for the code before that see [c10_cc_old_crossing]). *)
+    reported points lie on both circles exactly and are distinct (crossing branch measured from the
+    smaller circle; for the code before commit bc281aa see [c10_cc_old_crossing], for the code
+    between that commit and the present one see [c10_cc_big_crossing] / [c10_cc_big_ratio_refuted]). *)
 Theorem c10_cc_kinds : forall (eps : R) (a b : Circ R), 0 < eps -> eps <= cr b -> cr b <= cr a ->
   let d := edist (cc a) (cc b) in
   (cr a + cr b + eps <= d ->
@@ -100,6 +102,28 @@ Theorem c10_cc_old_crossing : forall (eps : R) (a b : Circ R), 0 < eps -> eps <=
   exists p q, intersect_cc_ordered_old rops eps a b = CCIntersect p q
     /\ on_circle a p /\ on_circle b p /\ on_circle a q /\ on_circle b q /\ p <> q.
 Proof. exact ord_cross_old. Qed.
+
+(** documentation: the crossing branch as written between commit bc281aa and the present code
+    ([intersect_cc_ordered_big]: chord foot and half chord measured from the LARGER circle) is exact
+    over the reals as well ... *)
+Theorem c10_cc_big_crossing : forall (eps : R) (a b : Circ R), 0 < eps -> eps <= cr b -> cr b <= cr a ->
+  let d := edist (cc a) (cc b) in
+  cr a - cr b + eps <= d < cr a + cr b - eps ->
+  exists p q, intersect_cc_ordered_big rops eps a b = CCIntersect p q
+    /\ on_circle a p /\ on_circle b p /\ on_circle a q /\ on_circle b q /\ p <> q.
+Proof. exact ord_cross_big. Qed.
+
+(** ... but NOT in binary64: for a = ((0,0), 1000), b = ((999.9993,0), 0.001) (a proper crossing, 3e-4
+    from both tangencies; [ProofsRatio.w_a], [w_b] give the exact bit patterns) the binary64 instance
+    of that branch returns two points that the exact dyadic specification rejects (1.2e-7 off the
+    small circle: sqrt(a.r^2 - x^2) cancels at the scale of a.r^2), while the present code's points
+    are accepted, in either argument order.  Observed on the real crate before the repair. *)
+Theorem c10_cc_big_ratio_refuted :
+  (exists p q, Corr.of_cc (intersect_cc_big Corr.fops Corr.feps ProofsRatio.w_a ProofsRatio.w_b) = Corr.MTwo p q) /\
+  Corr.spec_check (ProofsRatio.w_case (ProofsRatio.obs_of (Corr.of_cc (intersect_cc_big Corr.fops Corr.feps ProofsRatio.w_a ProofsRatio.w_b)))) = false /\
+  Corr.spec_check (ProofsRatio.w_case (ProofsRatio.obs_of (Corr.of_cc (intersect_cc Corr.fops Corr.feps ProofsRatio.w_a ProofsRatio.w_b)))) = true /\
+  Corr.spec_check (ProofsRatio.w_case (ProofsRatio.obs_of (Corr.of_cc (intersect_cc Corr.fops Corr.feps ProofsRatio.w_b ProofsRatio.w_a)))) = true.
+Proof. exact ProofsRatio.cc_big_ratio_refuted. Qed.
 
 Theorem c10_cc_swap : forall (eps : R) (a b : Circ R), cr a < cr b ->
   intersect_cc rops eps a b = intersect_cc rops eps b a.
